@@ -50,7 +50,11 @@ def inline(c, d):
         return c.words()
     if r < 0.60:
         t = c.target()
-        inner = inline(c, d - 1) if rng.random() < 0.4 else "L%d" % next(c.n)
+        if rng.random() < 0.4:
+            inner = inline(c, d - 1)
+        else:
+            inner = "L%d" % next(c.n)
+            c.links.append((inner, t))
         return '<a href="%s">%s</a>' % (attr_escape(t), inner)
     if r < 0.64:
         return "<a>%s</a>" % inline(c, d - 1)
@@ -129,11 +133,13 @@ def blocks(c, d):
     return "".join(block(c, d) for _ in range(c.rng.randint(1, 3)))
 
 
-def html_doc(rng, hostile=0.0, depth=3):
+def html_doc(rng, hostile=0.0, depth=3, with_labels=False):
     c = Ctx(rng, hostile, depth)
     doc = blocks(c, depth)
     if rng.random() < hostile:
         doc += rng.choice(RAW_HOSTILE)
+    if with_labels:
+        return doc, c.links
     return doc
 
 
